@@ -43,7 +43,9 @@ AsmWhy(r) ==
       nl   == NlIdx(src)
       stl  == LabelsOfJson(st)
       p1ok == r.p1 = "ok"
-      \* pass 1 accepts iff the block-structure and label conditions hold (subset of C02)
+      LS   == IF dbg THEN LineSpecI(prog, X, nl) ELSE {}
+      keys == KeysOf(D)
+      LSpec == LabelSpecI(D)
   IN
      (IF r.panic = 1 \/ r.parse = "panic" THEN {"panic"} ELSE {})
      \* ---- C02
@@ -52,14 +54,14 @@ AsmWhy(r) ==
   \cup (IF r.parse = "ok" /\ r.panic = 0 /\ ~ok /\ wf THEN {"wf-rejected"} ELSE {})
      \* ---- C01: the image, nothing else, and the labels
   \cup (IF ok /\ wf /\ ImageOfBlocks(o.blocks) # ImageSpecI(prog, X, D) THEN {"image"} ELSE {})
-  \cup (IF p1ok /\ wf /\ LabelAddrsOfObj(stl) # LabelSpecI(D) THEN {"labels"} ELSE {})
+  \cup (IF p1ok /\ wf /\ LabelAddrsOfObj(stl) # LSpec THEN {"labels"} ELSE {})
   \cup (IF p1ok /\ wf /\ \E k \in DOMAIN stl : ~ExtFlagOK(D, k, stl[k].ext) THEN {"extflag"} ELSE {})
      \* ---- C21: relocation entries, and the symbol table survives whenever it declares an external
   \cup (IF p1ok /\ wf /\ RelOfObj(RelOfJson(st)) # RelSpecI(prog, X, D) THEN {"rel"} ELSE {})
   \cup (IF ok /\ wf /\ (\E d \in D : d[3]) /\ r.obj.sym # 1 THEN {"symkept"} ELSE {})
   \cup (IF ok /\ wf /\ r.obj.sym = 1 /\ (LabelsOfJson(r.obj.st) # stl \/ RelOfJson(r.obj.st) # RelOfJson(st)) THEN {"objsym"} ELSE {})
      \* ---- C24: the line table
-  \cup (IF p1ok /\ wf /\ dbg /\ LinesOfJson(st) # LineSpecI(prog, X, nl) THEN {"lines"} ELSE {})
+  \cup (IF p1ok /\ wf /\ dbg /\ LinesOfJson(st) # LS THEN {"lines"} ELSE {})
   \cup (IF p1ok /\ wf /\ ~dbg /\ LinesOfJson(st) # {} THEN {"lines"} ELSE {})
   \cup (IF p1ok /\ wf /\ dbg /\ st.src # src THEN {"srctext"} ELSE {})
      \* ---- C26: error spans
@@ -78,19 +80,19 @@ AsmWhy(r) ==
             CASE q.q = "label" ->
                    LET key == Upper(q.arg) IN
                    \/ q.panic = 1
-                   \/ (key \in KeysOf(D)) # (q.addr # -1)
-                   \/ (key \in KeysOf(D)) # (q.src[1] # -1)
-                   \/ key \in KeysOf(D) /\ q.addr # AddrOfKey(D, key)
-                   \/ key \in KeysOf(D) /\ q.src # <<FirstSrcOfKey(D, key), FirstSrcOfKey(D, key) + Len(q.arg)>>
-                   \/ key \in KeysOf(D) /\ dbg /\ Upper(SubBytes(src, q.src)) # key
+                   \/ (key \in keys) # (q.addr # -1)
+                   \/ (key \in keys) # (q.src[1] # -1)
+                   \/ key \in keys /\ q.addr # AddrOfKey(D, key)
+                   \/ key \in keys /\ LET fs == FirstSrcOfKey(D, key) IN q.src # <<fs, fs + Len(q.arg)>>
+                   \/ key \in keys /\ dbg /\ Upper(SubBytes(src, q.src)) # key
               [] q.q = "addr" ->
                    \/ q.panic = 1
                    \/ (q.has = 1) # (\E d \in D : d[2] = q.arg)
-                   \/ q.has = 1 /\ <<q.label, q.arg>> \notin LabelSpecI(D)
+                   \/ q.has = 1 /\ <<q.label, q.arg>> \notin LSpec
               [] OTHER -> FALSE
         THEN {"labelquery"} ELSE {})
   \cup (IF p1ok /\ wf /\ \E j \in 1..Len(r.q) :
-            LET q == r.q[j]  LS == IF dbg THEN LineSpecI(prog, X, nl) ELSE {} IN
+            LET q == r.q[j] IN
             CASE q.q = "line" ->
                    \/ q.panic = 1
                    \/ (q.addr # -1) # (\E p \in LS : p[1] = q.arg)
@@ -100,8 +102,7 @@ AsmWhy(r) ==
                    \/ q.line # -1 /\ <<q.line, q.arg>> \notin LS
               [] OTHER -> FALSE
         THEN {"linequery"} ELSE {})
-  \cup (IF p1ok /\ wf /\ dbg /\ LET LS == LineSpecI(prog, X, nl) IN
-                               \E p, q \in LS : p # q /\ (p[1] = q[1] \/ p[2] = q[2])
+  \cup (IF p1ok /\ wf /\ dbg /\ \E p, q \in LS : p # q /\ (p[1] = q[1] \/ p[2] = q[2])
         THEN {"lines-not-injective"} ELSE {})
      \* ---- conformance with the operational transcription (drift unless the property is exact conformance)
   \cup (IF r.parse = "ok" /\ r.panic = 0 /\ ok # A.ok THEN {"conf-accept"} ELSE {})
@@ -166,7 +167,9 @@ LinkWhy(r) ==
       \* the set as a whole (files that all carry symbol tables)
       setok == /\ \A f, g \in 1..nf : f # g => Disjoint(T[f], T[g])
                /\ \A f, g \in 1..nf : f # g => ~LabelConflict(T[f], T[g])
-      allDefs == UNION { FI[f].defs : f \in 1..nf }
+      \* a file contributes its definitions to a link only if its object file carries the symbol table
+      \* (assembled with debug symbols, or declaring an external itself): `assemble` drops it otherwise
+      allDefs == UNION { FI[f].defs : f \in { f \in 1..nf : T[f].sym } }
       allRel  == UNION { FI[f].rel : f \in 1..nf }
       defd(k) == \E d \in allDefs : d[1] = k
       addrOf(k) == (CHOOSE d \in allDefs : d[1] = k)[2]
